@@ -338,10 +338,20 @@ def advance (dec : (k p : Nat) → List Nat → Bool) (ks : Array Nat) (p : Nat)
   | 0, w => w
   | fuel+1, w => if w < ks.size && blockDone dec ks p got w then advance dec ks p got fuel (w + 1) else w
 
-def distinctSbns (got : List (Nat × Nat)) : List Nat := (got.map (·.1)).eraseDups
+/-- remove duplicates (keeps the last occurrence) -/
+def dedup : List Nat → List Nat
+  | [] => []
+  | x :: xs => if xs.contains x then dedup xs else x :: dedup xs
 
-def allocBytes (blen : Array Nat) (got : List (Nat × Nat)) : Nat :=
-  ((distinctSbns got).map (fun b => blen.getD b 0)).foldl (· + ·) 0
+/-- the blocks that hold a decoder (initialised and not yet written) -/
+def distinctSbns (got : List (Nat × Nat)) : List Nat := dedup (got.map (·.1))
+
+def sumOver (blen : Array Nat) : List Nat → Nat
+  | [] => 0
+  | b :: t => blen.getD b 0 + sumOver blen t
+
+/-- `total_allocated_blocks_size` -/
+def allocBytes (blen : Array Nat) (got : List (Nat × Nat)) : Nat := sumOver blen (distinctSbns got)
 
 /-- outcome of pushing symbols into an `ORx` -/
 structure PushRes where
